@@ -15,9 +15,11 @@ macro_rules! abstract_ty {
         pub struct $n<I: Interner> { _p: core::marker::PhantomData<I> }
     )* } }
 }
-abstract_ty!(Environment, Goal, Lifetime, Ty, EnaVariable, InferenceValue, TraitRef, AliasEq, TypeOutlives, EnaTable);
+abstract_ty!(Environment, Goal, Lifetime, Ty, EnaVariable, InferenceValue, TraitRef, AliasTy, TypeOutlives, EnaTable);
 impl<I: Interner> HasInterner for Goal<I> { type Interner = I; }
 //@CLONE_EQ generics="I: Interner" type="Lifetime<I>"
+//@CLONE_EQ generics="I: Interner" type="Ty<I>"
+//@CLONE_EQ generics="I: Interner" type="AliasTy<I>"
 impl<I: Interner> Copy for EnaVariable<I> {}
 impl<I: Interner> Clone for EnaVariable<I> { #[verifier::external_body] fn clone(&self) -> (r: Self) ensures r == *self { unimplemented!() } }
 
@@ -41,6 +43,7 @@ pub struct BoundVar { _p: () }
 //@TYPE file=chalk-ir/src/lib.rs kind=struct name=PlaceholderIndex attrs="#[derive(Clone, Copy)]"
 //@TYPE file=chalk-ir/src/lib.rs kind=enum name=LifetimeData attrs="#[verifier::reject_recursive_types(I)]"
 //@TYPE file=chalk-ir/src/lib.rs kind=struct name=LifetimeOutlives attrs="#[verifier::reject_recursive_types(I)]"
+//@TYPE file=chalk-ir/src/lib.rs kind=struct name=AliasEq attrs="#[verifier::reject_recursive_types(I)]"
 //@TYPE file=chalk-ir/src/lib.rs kind=enum name=WhereClause attrs="#[verifier::reject_recursive_types(I)]"
 //@TYPE file=chalk-ir/src/lib.rs kind=struct name=InEnvironment attrs="#[verifier::reject_recursive_types(G)]"
 //@TYPE file=chalk-solve/src/infer/unify.rs kind=struct name=Unifier attrs="#[verifier::reject_recursive_types(I)]"
@@ -102,6 +105,17 @@ impl<I: Interner> InferenceValue<I> {
     #[verifier::external_body]
     pub fn from_lifetime(interner: I, lifetime: Lifetime<I>) -> (r: Self) ensures r == value_of_lifetime(lifetime) { unimplemented!() }
 }
+pub uninterp spec fn goal_of_alias_eq<I: Interner>(a: AliasEq<I>) -> Goal<I>;
+pub uninterp spec fn var_ty<I: Interner>(v: EnaVariable<I>) -> Ty<I>;
+impl<I: Interner> AliasEq<I> {
+    /// `CastTo<Goal<I>>` for an associated-type equality
+    #[verifier::external_body]
+    pub fn cast(self, interner: I) -> (r: Goal<I>) ensures r == goal_of_alias_eq(self) { unimplemented!() }
+}
+impl<I: Interner> EnaVariable<I> {
+    #[verifier::external_body]
+    pub fn to_ty(self, interner: I) -> (r: Ty<I>) ensures r == var_ty(self) { unimplemented!() }
+}
 impl<I: Interner> WhereClause<I> {
     /// `CastTo<Goal<I>>` for where clauses
     #[verifier::external_body]
@@ -147,6 +161,16 @@ impl<I: Interner> InferenceTable<I> {
     pub fn universe_of_unbound_var(&mut self, var: EnaVariable<I>) -> (r: UniverseIndex)
         ensures final(self).unify.view() == old(self).unify.view(), r == old(self).unify.view().universe[var],
     { unimplemented!() }
+    /// a fresh variable: unbound, in the given universe, unknown to the table so far
+    #[verifier::external_body]
+    pub fn new_variable(&mut self, ui: UniverseIndex) -> (r: EnaVariable<I>)
+        ensures
+            r == spec_fresh(old(self).unify.view()),
+            !old(self).unify.view().universe.contains_key(r), !old(self).unify.view().bound.contains_key(r),
+            final(self).unify.view().universe == old(self).unify.view().universe.insert(r, ui),
+            final(self).unify.view().bound == old(self).unify.view().bound,
+            final(self).unify.view().unified == old(self).unify.view().unified,
+    { unimplemented!() }
     /// replaces a bound lifetime variable by its value; a value is never a bound variable
     #[verifier::external_body]
     pub fn normalize_lifetime_shallow(&mut self, interner: I, leaf: &Lifetime<I>) -> (r: Option<Lifetime<I>>)
@@ -155,6 +179,14 @@ impl<I: Interner> InferenceTable<I> {
 }
 
 // ------------------------------------------------------- specification level
+/// the variable ena hands out next (its next free index)
+pub uninterp spec fn spec_fresh<I: Interner>(table: TableView<I>) -> EnaVariable<I>;
+pub uninterp spec fn spec_relate_ty_ty<I: Interner>(goals: Seq<InEnvironment<Goal<I>>>, table: TableView<I>, env: Environment<I>, variance: Variance, a: Ty<I>, b: Ty<I>)
+    -> (bool, Seq<InEnvironment<Goal<I>>>, TableView<I>);
+/// the goal `<alias> == ty` in environment `env`
+pub open spec fn alias_eq_goal<I: Interner>(env: Environment<I>, alias: AliasTy<I>, ty: Ty<I>) -> InEnvironment<Goal<I>> {
+    InEnvironment { environment: env, goal: goal_of_alias_eq(AliasEq { alias, ty }) }
+}
 pub open spec fn outlives<I: Interner>(env: Environment<I>, a: Lifetime<I>, b: Lifetime<I>) -> InEnvironment<Goal<I>> {
     InEnvironment { environment: env, goal: goal_of_where_clause(WhereClause::LifetimeOutlives(LifetimeOutlives { a, b })) }
 }
@@ -178,11 +210,23 @@ impl<'t, I: Interner> Unifier<'t, I> {
         match (*self.table).spec_normalize(l) { Some(n) => n, None => l }
     }
 
+    /// HAVOC: the structural relation of two types (`relate_ty_ty`: reference patterns, generic zip; not extractable).
+    /// Its outcome is an uninterpreted function of the unifier's state and of its arguments, so that a caller's
+    /// contract can say exactly with which arguments, and on which state, it was invoked.
+    #[verifier::external_body]
+    fn relate_ty_ty(&mut self, variance: Variance, a: &Ty<I>, b: &Ty<I>) -> (r: Fallible<()>)
+        ensures
+            final(self).env() == old(self).env(),
+            (r is Ok, final(self).goal_seq(), final(self).tview())
+                == spec_relate_ty_ty(old(self).goal_seq(), old(self).tview(), old(self).env(), variance, *a, *b),
+    { unimplemented!() }
+
 // ------------------------------------------------------------- real functions
 // (`relate_lifetime_lifetime` itself matches with reference patterns `(&LifetimeData::X(..), ..)`, which this
 //  Verus rejects ("ref patterns"); it is not rewritten to fit — its two callees below carry the property.)
 //@FN file=chalk-solve/src/infer/unify.rs within="^impl<'t, I: Interner> Unifier<'t, I>$" fn=push_lifetime_outlives_goals contract=push_goals path=Unifier::push_lifetime_outlives_goals
 //@FN file=chalk-solve/src/infer/unify.rs within="^impl<'t, I: Interner> Unifier<'t, I>$" fn=unify_lifetime_var contract=unify_lifetime_var path=Unifier::unify_lifetime_var
+//@FN file=chalk-solve/src/infer/unify.rs within="^impl<'t, I: Interner> Unifier<'t, I>$" fn=relate_alias_ty contract=relate_alias_ty path=Unifier::relate_alias_ty
 }
 
 //@CONTRACT push_goals
@@ -190,6 +234,24 @@ impl<'t, I: Interner> Unifier<'t, I> {
         final(self).goal_seq() == old(self).goal_seq() + required(old(self).env(), variance, a, b),
         final(self).env() == old(self).env(),
         final(self).tview() == old(self).tview(),
+//@END
+//@CONTRACT relate_alias_ty
+    ensures
+        final(self).env() == old(self).env(),
+        // C07: at an invariant position the projection must EQUAL the type: exactly that goal is recorded, nothing else happens
+        variance is Invariant ==> r is Ok
+            && final(self).goal_seq() == old(self).goal_seq().push(alias_eq_goal(old(self).env(), *alias, *ty))
+            && final(self).tview() == old(self).tview(),
+        // C29: at a co-/contravariant position the projection equals a FRESH unknown of the root universe, and that
+        // unknown is then related to the type at the same variance (on exactly that state)
+        !(variance is Invariant) ==> {
+            let x = spec_fresh(old(self).tview());
+            (r is Ok, final(self).goal_seq(), final(self).tview())
+                    == spec_relate_ty_ty(
+                        old(self).goal_seq().push(alias_eq_goal(old(self).env(), *alias, var_ty(x))),
+                        TableView { universe: old(self).tview().universe.insert(x, UniverseIndex { counter: 0 }), bound: old(self).tview().bound, unified: old(self).tview().unified },
+                        old(self).env(), variance, var_ty(x), *ty)
+        },
 //@END
 //@CONTRACT unify_lifetime_var
     ensures
